@@ -28,6 +28,7 @@ struct Hold {
     coll: String,
     contains: String, // substring of the JSON rendering of the command (may be empty)
     remaining: u32,
+    skip: u32, // let this many matching commands pass first ("the k-th command of the request")
 }
 
 struct HeldCmd {
@@ -274,7 +275,11 @@ fn maybe_hold(sh: &Shared, conn: u64, body: &Document) {
     let js = to_json(body).to_string();
     let mut which = None;
     for h in st.holds.iter_mut() {
-        if h.remaining > 0 && h.cmd == name && (h.coll.is_empty() || h.coll == coll) && (h.contains.is_empty() || js.contains(&h.contains)) {
+        if h.remaining > 0 && (h.cmd == name || h.cmd == "*") && (h.coll.is_empty() || h.coll == coll) && (h.contains.is_empty() || js.contains(&h.contains)) {
+            if h.skip > 0 {
+                h.skip -= 1;
+                continue;
+            }
             h.remaining -= 1;
             which = Some(h.id);
             break;
@@ -430,6 +435,7 @@ fn handle_ctrl(s: TcpStream, sh: Shared) {
                     coll: v["match"]["coll"].as_str().unwrap_or("").to_string(),
                     contains: v["match"]["contains"].as_str().unwrap_or("").to_string(),
                     remaining: v["count"].as_u64().unwrap_or(1) as u32,
+                    skip: v["match"]["skip"].as_u64().unwrap_or(0) as u32,
                 });
                 serde_json::json!({"ok": true, "hold": id})
             }
